@@ -329,3 +329,138 @@ async fn one(out: &mut Out, n_hist: &mut u64, fixed: bool, n: usize, cap: usize,
     let wrong = wrong.map(|w| format!("{} [template {}, schedule {:?}, pool capacity {} prewarm {}]", w, t.name, sched, cap, pre));
     judge(out, events, "sched", n, t.ops.len(), fixed, wrong);
 }
+
+// ───────────────────────── timed enumerated schedules ─────────────────────────
+// The clock moves WHILE requests are in flight.  A key gets a deadline (SETPX at time 0, deadline D);
+// three requests are invoked at the times D-5, D, D+5 — in every order the interleaving allows, the
+// j-th invocation gets the j-th time, so each mailbox sees non-decreasing stamps — through pooled /
+// generic / batched reads and a plain write; optionally the clock jumps far past the deadline after
+// the last invocation and BEFORE the shard runs (the stamp of a queued message, not the time at which
+// the shard gets to it, decides what it sees).  Judged by the verified timed checker and the Rust one
+// (an operation invoked at virtual time t sees a key iff t < its deadline).
+
+struct TTemplate {
+    name: &'static str,
+    ops: Vec<Op>,
+}
+
+fn timed_templates(k: &[u8]) -> Vec<TTemplate> {
+    vec![
+        TTemplate { name: "reads:pooled+generic+batch", ops: vec![Op::k("PGET", k), Op::k("GET", k), Op::new("BGET", vec![k.to_vec()], vec![])] },
+        TTemplate { name: "reads+exists+fast", ops: vec![Op::k("FGET", k), Op::new("EXISTS", vec![k.to_vec()], vec![]), Op::k("PGET", k)] },
+        TTemplate { name: "write-between-reads", ops: vec![Op::k("PGET", k), Op::kv("PSET", k, b"w"), Op::k("GET", k)] },
+    ]
+}
+
+async fn exec_timed_schedule(n: usize, deadline: u64, t: &TTemplate, sched: &[Act], far: bool) -> Vec<TEvent> {
+    use crate::c03::set_now;
+    let (st, sim) = new_state_ctx(n);
+    let st = Arc::new(st);
+    let waker = noop_waker();
+    let mut cx = Context::from_waker(&waker);
+    let mut stamp: u64 = 1;
+    let mut events: Vec<TEvent> = Vec::new();
+    let key = t.ops[0].keys[0].clone();
+    // the key with its deadline, at time 0
+    {
+        let mut op = Op::kv("SETPX", &key, b"v");
+        op.cursor = deadline;
+        events.push(TEvent { stamp, id: stamp, now: 0, inv: Some(op.clone()), res: None });
+        let r = apply_timed(&st, &op).await;
+        events.push(TEvent { stamp: stamp + 1, id: stamp, now: 0, inv: None, res: Some(r) });
+        stamp += 2;
+    }
+    let times = [deadline - 5, deadline, deadline + 5];
+    let mut pos = 0usize;
+    let mut futs: Vec<Option<Fut>> = t.ops.iter().map(|_| None).collect();
+    let mut ids: Vec<(u64, u64)> = vec![(0, 0); t.ops.len()];
+    let n_inv = sched.iter().filter(|a| matches!(a, Act::Invoke(_))).count();
+    for act in sched {
+        match *act {
+            Act::Invoke(i) => {
+                let now = times[pos.min(2)];
+                set_now(&sim, now);
+                pos += 1;
+                let op = t.ops[i].clone();
+                ids[i] = (stamp, now);
+                events.push(TEvent { stamp, id: stamp, now, inv: Some(op.clone()), res: None });
+                stamp += 1;
+                let st2 = st.clone();
+                let mut f: Fut = Box::pin(async move { apply_timed(&st2, &op).await });
+                match f.as_mut().poll(&mut cx) {
+                    Poll::Ready(r) => {
+                        events.push(TEvent { stamp, id: ids[i].0, now, inv: None, res: Some(r) });
+                        stamp += 1;
+                    }
+                    Poll::Pending => futs[i] = Some(f),
+                }
+                if far && pos == n_inv {
+                    // the clock runs away while everything invoked so far may still be queued
+                    set_now(&sim, deadline + 100_000);
+                }
+            }
+            Act::Run => {
+                for _ in 0..4 {
+                    tokio::task::yield_now().await;
+                }
+            }
+            Act::Take(i) => {
+                if let Some(mut f) = futs[i].take() {
+                    let mut tries = 0;
+                    let r = loop {
+                        match f.as_mut().poll(&mut cx) {
+                            Poll::Ready(r) => break r,
+                            Poll::Pending => {
+                                tries += 1;
+                                if tries > 200 {
+                                    break "e:?never-answered".to_string();
+                                }
+                                tokio::task::yield_now().await;
+                            }
+                        }
+                    };
+                    events.push(TEvent { stamp, id: ids[i].0, now: ids[i].1, inv: None, res: Some(r) });
+                    stamp += 1;
+                }
+            }
+            Act::Drop(i) => futs[i] = None,
+        }
+    }
+    events
+}
+
+pub fn run_timed(out: &mut Out, thorough: bool) {
+    let rt = tokio::runtime::Builder::new_current_thread().enable_all().build().unwrap();
+    let mut n_hist = 0u64;
+    rt.block_on(async {
+        // interleavings of (Invoke, Take) of 3 requests, lazy / eager shard runs
+        let seqs: Vec<Vec<Act>> = (0..3).map(|i| vec![Act::Invoke(i), Act::Take(i)]).collect();
+        let mut scheds: Vec<Vec<Act>> = Vec::new();
+        for il in interleavings(&seqs) {
+            for eager in [false, true] {
+                let mut s = Vec::new();
+                for a in &il {
+                    s.push(*a);
+                    if eager && matches!(a, Act::Invoke(_)) {
+                        s.push(Act::Run);
+                    }
+                }
+                scheds.push(s);
+            }
+        }
+        let shard_counts: &[usize] = if thorough { &[1, 2, 4] } else { &[2] };
+        for &n in shard_counts {
+            for t in timed_templates(b"tk0") {
+                for s in &scheds {
+                    for far in [false, true] {
+                        let events = exec_timed_schedule(n, 100, &t, s, far).await;
+                        n_hist += 1;
+                        out.count(&format!("sched-timed:{}:shards={}:{}", t.name, n, if far { "clock-runs-away-while-queued" } else { "clock-at-invocation" }));
+                        judge_timed(out, events, n, &format!("sched:{}", t.name), 3);
+                    }
+                }
+            }
+        }
+    });
+    out.extra.insert("enumerated_timed_schedule_histories".into(), json!(n_hist));
+}
